@@ -101,7 +101,10 @@ func (r *Rlimit) Compare(other Rule) int {
 		}
 		return 1
 	}
-	return compare(restA, restB)
+	if res := compare(restA, restB); res != 0 {
+		return res
+	}
+	return compare(r.Value, o.Value) // 010 and 10 are not the same rule
 }
 
 // splitNumber returns the number a value starts with and what follows it.
